@@ -24,7 +24,8 @@ RULE = (
     "with_values(*args, **kwargs) calls (values of matching or non-matching type), then 1-10 with_node/with_edge/build steps whose "
     "edge endpoints are existing or dangling tasks/outputs/parameters, positional or keyword; a third of the programs are instead "
     "constructive and well formed (every node exists, every edge runs from a default output into a real parameter, no static values), "
-    "so that acceptance depends on the declared types alone; non-trivial = the program has >=1 edge "
+    "so that acceptance depends on the declared types alone; after a successful build a node may be re-bound to another signature "
+    "and the job built again; non-trivial = the program has >=1 edge "
     "and >=1 with_values call with positional arguments or a keyword, and build() is reached with >=2 nodes; distinct = fingerprint "
     "of the program"
 )
